@@ -77,7 +77,7 @@ pub fn build(a: &LensArgs) -> LensCfg {
         // Finalizer scripts (resurrection by clone / move / weak, releasing, allocating, nested collect ...)
         "fin" => {
             cfg.name = "fin";
-            cfg.codes = codes(CORE) | codes(&[TakeG, DropG, SetFin]);
+            cfg.codes = codes(CORE) | codes(&[TakeG, DropG, PutG, SetFin]);
             if fin_on {
                 cfg.codes |= codes(&[FinalizeAgain]);
             }
@@ -86,7 +86,7 @@ pub fn build(a: &LensArgs) -> LensCfg {
         // Destructor scripts
         "dtor" => {
             cfg.name = "dtor";
-            cfg.codes = codes(CORE) | codes(&[TakeG, DropG, SetDrop, SetFin]);
+            cfg.codes = codes(CORE) | codes(&[TakeG, DropG, PutG, SetDrop, SetFin]);
             cfg.drop_menu = a.drop_menu.clone().unwrap_or_else(|| vec![0, 2, 3, 4]);
             cfg.fin_menu = a.fin_menu.clone().unwrap_or_else(|| vec![0]);
         },
@@ -121,7 +121,7 @@ pub fn build(a: &LensArgs) -> LensCfg {
         },
         "autofin" => {
             cfg.name = "autofin";
-            cfg.codes = codes(CORE) | codes(&[SetAuto, TakeG, DropG, SetFin, SetDrop]);
+            cfg.codes = codes(CORE) | codes(&[SetAuto, TakeG, DropG, PutG, SetFin, SetDrop]);
             cfg.fin_menu = a.fin_menu.clone().unwrap_or_else(|| vec![0, 7, 8, 9]);
             cfg.drop_menu = a.drop_menu.clone().unwrap_or_else(|| vec![0, 2]);
             cfg.auto_lens = true;
